@@ -1,4 +1,510 @@
-import FluentModel.Resolver
+import FluentProofs.ResolverIso5
+/-!
+# C09 — bidi isolation is additive, balanced and confined to interpolated values
+
+Theorems about the transcribed resolver (`FluentModel/Resolver.lean`), for every `Env`, pattern, fuel,
+writer and scope.  Vocabulary (`FluentProofs/ResolverIso*.lean`):
+
+* `strip` removes every FSI / PDI, `Balanced` is the Dyck check, `NoMarks b` = `b` contains neither mark;
+* `MarkFree piece` — the hypothesis on each piece of "own text": every byte `E2` of the piece is followed
+  *inside the piece* by two bytes that do not complete a mark.  It excludes pieces containing a mark **and**
+  pieces ending in a partial mark (`… E2` or `… E2 81`), so that no mark can arise at a junction of two
+  pieces.  Any concatenation of well-formed UTF-8 sequences other than U+2068/U+2069 is `MarkFree`
+  (`Bidi.markFree_of_utf8`);
+* `Pieces env p` — every text element (after the transform), string literal (raw and unescaped), number
+  literal (raw and formatted), identifier, argument value, function output and formatter output of the
+  pattern and of every entry of the bundle is `MarkFree`;
+* `Dyck` — mark-free pieces with properly nested `fsi … pdi` pairs; `Dyck out → Balanced out`.
+-/
 namespace FluentProofs.C09
-theorem placeholder : True := trivial
+open FluentModel FluentModel.Syntax FluentModel.Resolver FluentProofs.Bidi
+
+/-! ## T1 `isolation_sites` -/
+
+/-- **where marks are written.**  One step of `Pattern::write` on a placeable: unless the scope is dirty,
+the counter overflows or the placeable limit trips (all three return *before* anything is written for this
+placeable), the model writes `openMark ++ (output of the expression) ++ ({error} fallback if the limit
+tripped inside) ++ closeMark` and goes on with the rest; `(openMark, closeMark)` is `(fsi, pdi)` exactly
+when isolation is on, the pattern has more than one element and the expression is not a message reference,
+term reference or string literal, and `([], [])` otherwise.  A text element writes its (transformed) text
+and nothing else.  These are the only places where the model writes `fsi` / `pdi`. -/
+theorem isolation_sites (env : Env) (n : Nat) (whole : Pattern Bytes) (len : Nat) (rest : List (PatElem Bytes))
+    (w : Bytes) (sc : Scope) :
+    (∀ e, writeElems env (n + 1) whole len (.placeable e :: rest) w sc =
+      if sc.dirty = true then .ok (w, sc)
+      else if sc.placeables + 1 > 255 then .panic "placeables u8 overflow"
+      else if sc.placeables + 1 > Generated.maxPlaceables then
+        .ok (w, ({ sc with placeables := sc.placeables + 1, dirty := true } : Scope).addError .tooManyPlaceables)
+      else match writeExpr env n e (w ++ openMark env len e) (trackScope whole sc) with
+        | .ok (w2, sc3) => writeElems env n whole len rest (w2 ++ fallback e sc3 ++ closeMark env len e) sc3
+        | .panic m => .panic m
+        | .fuel => .fuel) ∧
+    (∀ e, (openMark env len e, closeMark env len e) =
+      if env.useIsolating = true ∧ len > 1 ∧ isolatable e = true then (fsi, pdi) else ([], [])) ∧
+    (∀ v, writeElems env (n + 1) whole len (.text v :: rest) w sc =
+      if sc.dirty = true then .ok (w, sc)
+      else writeElems env n whole len rest (w ++ (match env.transform with | some f => f v | .none => v)) sc) := by
+  refine ⟨fun e => writeElems_placeable env n whole len e rest w sc, fun e => ?_,
+    fun v => writeElems_text env n whole len v rest w sc⟩
+  unfold openMark closeMark
+  by_cases h : env.useIsolating = true ∧ len > 1 ∧ isolatable e = true
+  · rw [if_pos h]; simp [h.1, h.2.1, h.2.2]
+  · rw [if_neg h]
+    have : (env.useIsolating && decide (len > 1) && isolatable e) = false := by
+      cases h1 : env.useIsolating <;> cases h3 : isolatable e <;> simp_all
+    simp [this]
+
+/-- **the shape of an isolated value**: when the step on a placeable gets past the three early returns and
+the whole `writeElems` call returns, the output appended for this placeable is exactly
+`openMark ++ body ++ fallback ++ closeMark` — `body` the (balanced) output of the expression, `fallback` its
+`{error}` text if the placeable limit tripped inside — followed by the (balanced) output `tail` of the rest.
+So an opened FSI is always closed: there is no return between the two writes. -/
+theorem isolation_site_shape {env : Env} (H : EnvOK env Dyck) {n : Nat} {whole : Pattern Bytes} {len : Nat}
+    {e : Expr Bytes} {rest : List (PatElem Bytes)} {w w' : Bytes} {sc sc' : Scope}
+    (he : AtomsOK env Dyck (exprAtoms e)) (hrest : AtomsOK env Dyck (elemsAtoms (decide (len > 1)) rest))
+    (hsc : ScOK env Dyck sc) (hd : sc.dirty = false) (hlim : sc.placeables + 1 ≤ Generated.maxPlaceables)
+    (h : writeElems env (n + 1) whole len (.placeable e :: rest) w sc = .ok (w', sc')) :
+    ∃ body tail sc3,
+      writeExpr env n e (w ++ openMark env len e) (trackScope whole sc) = .ok (w ++ openMark env len e ++ body, sc3) ∧
+      w' = w ++ (openMark env len e ++ body ++ fallback e sc3 ++ closeMark env len e) ++ tail ∧
+      Dyck body ∧ Dyck tail := by
+  rw [writeElems_placeable] at h
+  have h255 : ¬ sc.placeables + 1 > 255 := by
+    have : Generated.maxPlaceables = 100 := rfl
+    omega
+  rw [if_neg (by simp [hd]), if_neg h255, if_neg (by omega)] at h
+  have hl2 : (trackScope whole sc).localArgs = sc.localArgs := by unfold trackScope; split <;> rfl
+  have h1 := (inv_all H n).writeExpr e (w ++ openMark env len e) (trackScope whole sc) he (ScOK.of_eq hl2 hsc)
+  rcases hr : writeExpr env n e (w ++ openMark env len e) (trackScope whole sc) with ⟨⟨w2, sc3⟩⟩ | ⟨m⟩ | _
+  · rw [hr] at h h1
+    simp only [] at h
+    obtain ⟨⟨body, rfl, hb⟩, hl3⟩ := h1
+    have h2 := (inv_all H n).writeElems whole len rest
+      (w ++ openMark env len e ++ body ++ fallback e sc3 ++ closeMark env len e) sc3 hrest (ScOK.of_eq (hl3.trans hl2) hsc)
+    rw [h] at h2
+    obtain ⟨⟨tail, e2, ht⟩, _⟩ := h2
+    exact ⟨body, tail, sc3, rfl, by rw [e2]; simp [List.append_assoc], hb, ht⟩
+  · rw [hr] at h; cases h
+  · rw [hr] at h; cases h
+
+/-- **single-element patterns get no marks of their own**: in a pattern with at most one element nothing is
+written around the placeable (marks in the output can then only come from multi-element patterns the
+expression refers to). -/
+theorem single_element_no_own_marks (env : Env) {len : Nat} (h : len ≤ 1) (e : Expr Bytes) :
+    openMark env len e = [] ∧ closeMark env len e = [] :=
+  ⟨openMark_single env h e, closeMark_single env h e⟩
+
+/-- message references, term references and string literals are never isolated -/
+theorem references_and_literals_not_isolated (env : Env) (len : Nat) :
+    (∀ id a, openMark env len (.inline (.msg id a)) = [] ∧ closeMark env len (.inline (.msg id a)) = []) ∧
+    (∀ id a args, openMark env len (.inline (.term id a args)) = [] ∧ closeMark env len (.inline (.term id a args)) = []) ∧
+    (∀ v, openMark env len (.inline (.str v)) = [] ∧ closeMark env len (.inline (.str v)) = []) :=
+  ⟨fun _ _ => ⟨openMark_not_isolatable env len rfl, closeMark_not_isolatable env len rfl⟩,
+   fun _ _ _ => ⟨openMark_not_isolatable env len rfl, closeMark_not_isolatable env len rfl⟩,
+   fun _ => ⟨openMark_not_isolatable env len rfl, closeMark_not_isolatable env len rfl⟩⟩
+
+/-- **isolation off ⇒ no marks**: with `use_isolating = false` and mark-free pieces the output appended by
+`Pattern::write` is mark-free (in particular contains neither FSI nor PDI), on every path. -/
+theorem isolation_off_no_marks {env : Env} {p : Pattern Bytes} (hoff : env.useIsolating = false) (P : Pieces env p)
+    (fuel : Nat) (w : Bytes) (sc : Scope) (hsc : ScOK env MarkFree sc) {w' : Bytes} {sc' : Scope}
+    (h : writePattern env fuel p w sc = .ok (w', sc')) :
+    ∃ out, w' = w ++ out ∧ MarkFree out ∧ NoMarks out := by
+  obtain ⟨H, hp⟩ := P.envOK lang_markFree (siteOK_off _ hoff)
+  have := (inv_all H fuel).writePattern p w sc hp hsc
+  rw [h] at this
+  obtain ⟨⟨o, e, ho⟩, _⟩ := this
+  exact ⟨o, e, ho, ho.noMarks⟩
+
+/-- the same for `FluentBundle::format_pattern` and `write_pattern` -/
+theorem isolation_off_no_marks_top {env : Env} {p : Pattern Bytes} (hoff : env.useIsolating = false) (P : Pieces env p)
+    (fuel : Nat) {out : Bytes} {errs : List RErr}
+    (h : formatPattern env fuel p = .ok (out, errs) ∨ writePatternTop env fuel p = .ok (out, errs)) :
+    MarkFree out ∧ NoMarks out := by
+  obtain ⟨H, hp⟩ := P.envOK lang_markFree (siteOK_off _ hoff)
+  rcases h with h | h
+  · have h1 := resolvePattern_out H hp fuel {} (scOK_empty _ _)
+    unfold formatPattern at h
+    rcases hr : resolvePattern env fuel p {} with ⟨⟨w, sc⟩⟩ | _ | _ <;> rw [hr] at h <;> simp at h
+    rw [hr] at h1
+    obtain ⟨⟨o, e, ho⟩, _⟩ := h1
+    obtain ⟨rfl, _⟩ := h
+    simp at e; subst e
+    exact ⟨ho, ho.noMarks⟩
+  · have h1 := (inv_all H fuel).writePattern p [] {} hp (scOK_empty _ _)
+    unfold writePatternTop at h
+    rcases hr : writePattern env fuel p [] {} with ⟨⟨w, sc⟩⟩ | _ | _ <;> rw [hr] at h <;> simp at h
+    rw [hr] at h1
+    obtain ⟨⟨o, e, ho⟩, _⟩ := h1
+    obtain ⟨rfl, _⟩ := h
+    simp at e; subst e
+    exact ⟨ho, ho.noMarks⟩
+
+/-- **marks only come from sites**: even with isolation on, if no pattern of the bundle (nor `p`) has an
+isolatable placeable inside a multi-element pattern, the output is mark-free. -/
+theorem isolation_only_at_sites {env : Env} {p : Pattern Bytes} (P : Pieces env p) (N : NoSites env p)
+    (fuel : Nat) (w : Bytes) (sc : Scope) (hsc : ScOK env MarkFree sc) {w' : Bytes} {sc' : Scope}
+    (h : writePattern env fuel p w sc = .ok (w', sc')) :
+    ∃ out, w' = w ++ out ∧ MarkFree out ∧ NoMarks out := by
+  obtain ⟨H, hp⟩ := P.envOK_noSites lang_markFree N
+  have := (inv_all H fuel).writePattern p w sc hp hsc
+  rw [h] at this
+  obtain ⟨⟨o, e, ho⟩, _⟩ := this
+  exact ⟨o, e, ho, ho.noMarks⟩
+
+/-! ## T1 `isolation_balanced` -/
+
+/-- **balance, for every call of every function of the resolver** (general form).  `Inv env Dyck fuel`
+says, for each of `writeElems`, `writePattern`, `track`, `writeExpr`, `writeDefault`, `writeInline`: a call
+from writer `w` that returns `.ok (w', sc')` has `w' = w ++ out` with `Dyck out` (and restores the local
+arguments); for `resolveInline`, `getArguments`, `resolveList`, `resolveNamed`: the resolved values are
+written as Dyck words.  `EnvOK env Dyck` is the piece hypothesis in its weakest form: atoms mark-free,
+argument values written as Dyck words, functions mapping Dyck-valued arguments to Dyck-valued results. -/
+theorem isolation_balanced_every_call {env : Env} (H : EnvOK env Dyck) (fuel : Nat) : Inv env Dyck fuel :=
+  inv_all H fuel
+
+/-- **balance**: whatever the isolation setting, on every path — reference-error fallbacks, cycles, missing
+defaults, the placeable-limit (`dirty`) path — a `Pattern::write` that returns appends a word with balanced,
+properly nested marks.  (Panics and fuel exhaustion return nothing; C06 shows they do not happen.) -/
+theorem isolation_balanced {env : Env} {p : Pattern Bytes} (P : Pieces env p)
+    (fuel : Nat) (w : Bytes) (sc : Scope) (hsc : ScOK env Dyck sc) {w' : Bytes} {sc' : Scope}
+    (h : writePattern env fuel p w sc = .ok (w', sc')) :
+    ∃ out, w' = w ++ out ∧ Dyck out ∧ Balanced out := by
+  obtain ⟨H, hp⟩ := P.envOK lang_dyck (siteOK_dyck env)
+  have := (inv_all H fuel).writePattern p w sc hp hsc
+  rw [h] at this
+  obtain ⟨⟨o, e, ho⟩, _⟩ := this
+  exact ⟨o, e, ho, ho.balanced⟩
+
+/-- the same for `FluentBundle::format_pattern` and `write_pattern` -/
+theorem isolation_balanced_top {env : Env} {p : Pattern Bytes} (P : Pieces env p)
+    (fuel : Nat) {out : Bytes} {errs : List RErr}
+    (h : formatPattern env fuel p = .ok (out, errs) ∨ writePatternTop env fuel p = .ok (out, errs)) :
+    Dyck out ∧ Balanced out := by
+  obtain ⟨H, hp⟩ := P.envOK lang_dyck (siteOK_dyck env)
+  rcases h with h | h
+  · have h1 := resolvePattern_out H hp fuel {} (scOK_empty _ _)
+    unfold formatPattern at h
+    rcases hr : resolvePattern env fuel p {} with ⟨⟨w, sc⟩⟩ | _ | _ <;> rw [hr] at h <;> simp at h
+    rw [hr] at h1
+    obtain ⟨⟨o, e, ho⟩, _⟩ := h1
+    obtain ⟨rfl, _⟩ := h
+    simp at e; subst e
+    exact ⟨ho, ho.balanced⟩
+  · have h1 := (inv_all H fuel).writePattern p [] {} hp (scOK_empty _ _)
+    unfold writePatternTop at h
+    rcases hr : writePattern env fuel p [] {} with ⟨⟨w, sc⟩⟩ | _ | _ <;> rw [hr] at h <;> simp at h
+    rw [hr] at h1
+    obtain ⟨⟨o, e, ho⟩, _⟩ := h1
+    obtain ⟨rfl, _⟩ := h
+    simp at e; subst e
+    exact ⟨ho, ho.balanced⟩
+
+/-! ## T1 `isolation_additive_partial` -/
+
+/-- outcome of the isolating run against the plain run, both started from writer `w` and the same scope:
+same final scope (error log, placeables counter, dirty flag, …); the isolating output stripped of its
+marks is the plain output; the isolating output is balanced; the plain output has no marks.  Panics agree. -/
+def Additive (w : Bytes) : RR (Bytes × Scope) → RR (Bytes × Scope) → Prop
+  | .ok (a, s), .ok (b, t) =>
+    s = t ∧ ∃ on off, a = w ++ on ∧ b = w ++ off ∧ strip on = off ∧ Iso on off ∧ Balanced on ∧ NoMarks off
+  | .panic m, .panic m' => m = m'
+  | .fuel, .fuel => True
+  | _, _ => False
+
+/-- **additivity, under `NoIsolatedValueFlow`** (partial: see `C09_full_statement` and F15). -/
+theorem isolation_additive_partial {env : Env} {p : Pattern Bytes} (F : NoIsolatedValueFlow env p) (P : Pieces env p)
+    (fuel : Nat) (w : Bytes) (sc : Scope) (hsc : ScOK env MarkFree sc) :
+    Additive w (writePattern (withIso env true) fuel p w sc) (writePattern (withIso env false) fuel p w sc) := by
+  obtain ⟨Hoff, hpoff⟩ := (P.withIso false).envOK lang_markFree (siteOK_off _ rfl)
+  obtain ⟨Hon, hpon⟩ := (P.withIso true).envOK lang_dyck (siteOK_dyck _)
+  have hoff := (inv_all Hoff fuel).writePattern p w sc hpoff hsc
+  have hon := (inv_all Hon fuel).writePattern p w sc hpon
+    (fun l hl kv hkv => Dyck.of_markFree (hsc l hl kv hkv))
+  rcases ((inv2_all F.bundle fuel).writePattern p w w sc F.pattern).cases with
+    ⟨s, on, off, e1, e2, hi⟩ | ⟨m, e1, e2⟩ | ⟨e1, e2⟩
+  · rw [e1] at hon ⊢; rw [e2] at hoff ⊢
+    obtain ⟨⟨o1, h1, ho1⟩, _⟩ := hon
+    obtain ⟨⟨o2, h2, ho2⟩, _⟩ := hoff
+    have h1 := List.append_cancel_left h1
+    have h2 := List.append_cancel_left h2
+    subst h1; subst h2
+    exact ⟨rfl, on, off, rfl, rfl, hi.strip_eq ho2, hi, ho1.balanced, ho2.noMarks⟩
+  · rw [e1, e2]; exact rfl
+  · rw [e1, e2]; exact True.intro
+
+/-- additivity for `FluentBundle::format_pattern`: identical error lists, `strip on = off`, … -/
+theorem isolation_additive_partial_format {env : Env} {p : Pattern Bytes} (F : NoIsolatedValueFlow env p)
+    (P : Pieces env p) (fuel : Nat) :
+    match formatPattern (withIso env true) fuel p, formatPattern (withIso env false) fuel p with
+    | .ok (on, e₁), .ok (off, e₂) => strip on = off ∧ e₁ = e₂ ∧ Iso on off ∧ Balanced on ∧ NoMarks off
+    | .panic m, .panic m' => m = m'
+    | .fuel, .fuel => True
+    | _, _ => False := by
+  obtain ⟨Hoff, hpoff⟩ := (P.withIso false).envOK lang_markFree (siteOK_off _ rfl)
+  obtain ⟨Hon, hpon⟩ := (P.withIso true).envOK lang_dyck (siteOK_dyck _)
+  have hoff := resolvePattern_out Hoff hpoff fuel {} (scOK_empty _ _)
+  have hon := resolvePattern_out Hon hpon fuel {} (scOK_empty _ _)
+  unfold formatPattern
+  rcases (resolvePattern_rel F fuel {}).cases with ⟨s, on, off, e1, e2, hi⟩ | ⟨m, e1, e2⟩ | ⟨e1, e2⟩
+  · rw [e1] at hon ⊢; rw [e2] at hoff ⊢
+    obtain ⟨⟨o1, h1, ho1⟩, _⟩ := hon
+    obtain ⟨⟨o2, h2, ho2⟩, _⟩ := hoff
+    have h1 := List.append_cancel_left h1
+    have h2 := List.append_cancel_left h2
+    subst h1; subst h2
+    exact ⟨hi.strip_eq ho2, rfl, hi, ho1.balanced, ho2.noMarks⟩
+  · rw [e1, e2]
+  · rw [e1, e2]; exact True.intro
+
+/-- additivity for `FluentBundle::write_pattern` -/
+theorem isolation_additive_partial_write {env : Env} {p : Pattern Bytes} (F : NoIsolatedValueFlow env p)
+    (P : Pieces env p) (fuel : Nat) :
+    match writePatternTop (withIso env true) fuel p, writePatternTop (withIso env false) fuel p with
+    | .ok (on, e₁), .ok (off, e₂) => strip on = off ∧ e₁ = e₂ ∧ Iso on off ∧ Balanced on ∧ NoMarks off
+    | .panic m, .panic m' => m = m'
+    | .fuel, .fuel => True
+    | _, _ => False := by
+  have h := isolation_additive_partial F P fuel [] {} (scOK_empty _ _)
+  unfold writePatternTop
+  rcases h1 : writePattern (withIso env true) fuel p [] {} with ⟨⟨a, s⟩⟩ | ⟨m⟩ | _ <;>
+    rcases h2 : writePattern (withIso env false) fuel p [] {} with ⟨⟨b, t⟩⟩ | ⟨m'⟩ | _ <;>
+    rw [h1, h2] at h <;> try exact h.elim
+  · obtain ⟨rfl, on, off, rfl, rfl, hs, hi, hb, hn⟩ := h
+    exact ⟨hs, rfl, hi, hb, hn⟩
+  · exact h
+  · exact True.intro
+
+/-! ## the full statement and why it is not a theorem (finding F15) -/
+
+/-- **C09 additivity at full strength** — without `NoIsolatedValueFlow`.  This is *false* for the model and
+for the implementation (`full_statement_fails` below): known finding **F15**.  A selector (or a call
+argument) that is a term-attribute / message / term reference or a nested placeable is resolved by
+*writing* the referenced pattern into a string; with isolation on that string carries the marks, so the
+selector compares differently (or a function sees a different argument). -/
+def C09_full_statement : Prop :=
+  ∀ (env : Env) (p : Pattern Bytes) (fuel : Nat) (on off : Bytes) (e₁ e₂ : List RErr), Pieces env p →
+    formatPattern (withIso env true) fuel p = .ok (on, e₁) →
+    formatPattern (withIso env false) fuel p = .ok (off, e₂) →
+    strip on = off ∧ e₁ = e₂
+
+deriving instance DecidableEq for FluentModel.Resolver.RR
+
+namespace F15
+/-! `-t = T` / ` .attr = { $v }{""}` and `m = { -t.attr(v: "foo") -> [foo] A *[other] B }` -/
+
+def tId : Bytes := [116]            -- "t"
+def attrId : Bytes := [97, 116, 116, 114]   -- "attr"
+def vId : Bytes := [118]            -- "v"
+def foo : Bytes := [102, 111, 111]
+def other : Bytes := [111, 116, 104, 101, 114]
+
+def termT : Term Bytes :=
+  { id := tId, value := [.text [84]],
+    attributes := [⟨attrId, [.placeable (.inline (.var vId)), .placeable (.inline (.str []))]⟩],
+    comment := .none }
+
+def env : Env :=
+  { msg := fun _ => .none
+    term := fun id => if id = tId then some termT else .none
+    fn := fun _ => .none
+    useIsolating := false
+    transform := .none
+    formatter := .none
+    category := fun _ => some .other
+    tryNumber := fun b => .str b
+    unescape := fun b => b
+    customStr := fun b => b
+    args := .none }
+
+def m : Pattern Bytes :=
+  [.placeable (.select (.term tId (some attrId) (some ([], [(vId, .str foo)])))
+    [.mk (.ident foo) [.text [65]] false, .mk (.ident other) [.text [66]] true])]
+
+def outOf : RR (Bytes × List RErr) → Option (Bytes × Nat)
+  | .ok (w, e) => some (w, e.length)
+  | _ => .none
+
+/-- TEST (`decide` on literals): without isolation the selector is `"foo"` and variant `A` is chosen … -/
+example : outOf (formatPattern (withIso env false) 12 m) = some ([65], 0) := by decide +kernel
+/-- TEST: … with isolation the selector is `FSI foo PDI` and the default `B` is chosen: F15. -/
+example : outOf (formatPattern (withIso env true) 12 m) = some ([66], 0) := by decide +kernel
+/-- TEST: the example violates exactly the extra hypothesis -/
+example : nfElems m = false := by decide +kernel
+
+theorem pieces : Pieces env m := by
+  have hterm : ∀ id t, env.term id = some t → t = termT := by
+    intro id t h
+    simp only [env] at h
+    split at h
+    · cases h; rfl
+    · cases h
+  have mf : ∀ b, markFreeB b = true → MarkFree b := markFreeB_sound
+  refine ⟨?_, ?_, ?_, ?_, ?_, ?_, ?_, ?_⟩
+  · intro a ha
+    have : a ∈ [Atom.ident tId, .ident attrId, .str foo, .text [65], .text [66]] := by
+      simpa [m, patAtoms, elemsAtoms, elemAtoms, exprAtoms, inlineAtoms, optAtom, inlinesAtoms, namedAtoms,
+        variantsAtoms, variantAtoms, isolatable] using ha
+    simp only [List.mem_cons, List.not_mem_nil, or_false] at this
+    rcases this with rfl | rfl | rfl | rfl | rfl
+    · exact mf _ (by decide)
+    · exact mf _ (by decide)
+    · exact ⟨mf _ (by decide), mf _ (by decide)⟩
+    · exact mf _ (by decide)
+    · exact mf _ (by decide)
+  · intro id m' q h; cases h
+  · intro id m' a h; cases h
+  · intro id t h a ha
+    rw [hterm id t h] at ha
+    have : a = Atom.text [84] := by
+      simpa [termT, patAtoms, elemsAtoms, elemAtoms] using ha
+    subst this
+    exact mf _ (by decide)
+  · intro id t at' h hat a ha
+    rw [hterm id t h] at hat
+    simp only [termT, List.mem_cons, List.not_mem_nil, or_false] at hat
+    subst hat
+    have : a ∈ [Atom.site, .ident vId, .str []] := by
+      simpa [patAtoms, elemsAtoms, elemAtoms, exprAtoms, inlineAtoms, isolatable] using ha
+    simp only [List.mem_cons, List.not_mem_nil, or_false] at this
+    rcases this with rfl | rfl | rfl
+    · trivial
+    · exact mf _ (by decide)
+    · exact ⟨mf _ (by decide), mf _ (by decide)⟩
+  · intro a h; cases h
+  · intro id f ps ns h; cases h
+  · intro f v s h; cases h
+
+end F15
+
+/-- the full statement fails on the F15 bundle (all pieces are mark-free ASCII): the hypothesis
+`NoIsolatedValueFlow` of `isolation_additive_partial` cannot be dropped. -/
+theorem full_statement_fails : ¬ C09_full_statement := by
+  intro h
+  have h1 : formatPattern (withIso F15.env true) 12 F15.m = .ok ([66], []) := by decide +kernel
+  have h2 : formatPattern (withIso F15.env false) 12 F15.m = .ok ([65], []) := by decide +kernel
+  have := (h F15.env F15.m 12 [66] [65] [] [] F15.pieces h1 h2).1
+  exact absurd this (by decide)
+
+/-! ## non-vacuity (TESTS: `decide` on literals) -/
+
+namespace Demo
+/-! `hello = Hello, { $name }! { -brand }` with `-brand = { $x }Fluent`, `$name = "Ann"` -/
+
+def nameId : Bytes := [110]
+def brandId : Bytes := [98]
+def xId : Bytes := [120]
+
+def brand : Term Bytes :=
+  { id := brandId, value := [.placeable (.inline (.var xId)), .text [70]], attributes := [], comment := .none }
+
+def env : Env :=
+  { msg := fun _ => .none
+    term := fun id => if id = brandId then some brand else .none
+    fn := fun _ => .none
+    useIsolating := true
+    transform := .none
+    formatter := .none
+    category := fun _ => some .other
+    tryNumber := fun b => .str b
+    unescape := fun b => b
+    customStr := fun b => b
+    args := some [(nameId, .str [65, 110, 110])] }
+
+def hello : Pattern Bytes :=
+  [.text [72, 105, 32], .placeable (.inline (.var nameId)), .text [33, 32],
+   .placeable (.inline (.term brandId .none .none))]
+
+def outOf : RR (Bytes × List RErr) → Option (Bytes × Nat)
+  | .ok (w, e) => some (w, e.length)
+  | _ => .none
+
+/-- the hypotheses of the theorems are jointly satisfiable on a bundle that does write marks -/
+theorem pieces : Pieces env hello := by
+  have hterm : ∀ id t, env.term id = some t → t = brand := by
+    intro id t h
+    simp only [env] at h
+    split at h
+    · cases h; rfl
+    · cases h
+  have mf : ∀ b, markFreeB b = true → MarkFree b := markFreeB_sound
+  refine ⟨?_, ?_, ?_, ?_, ?_, ?_, ?_, ?_⟩
+  · intro a ha
+    have : a ∈ [Atom.text [72, 105, 32], .site, .ident nameId, .text [33, 32], .ident brandId] := by
+      simpa [hello, patAtoms, elemsAtoms, elemAtoms, exprAtoms, inlineAtoms, optAtom, isolatable] using ha
+    simp only [List.mem_cons, List.not_mem_nil, or_false] at this
+    rcases this with rfl | rfl | rfl | rfl | rfl
+    · exact mf _ (by decide)
+    · trivial
+    · exact mf _ (by decide)
+    · exact mf _ (by decide)
+    · exact mf _ (by decide)
+  · intro id m' q h; cases h
+  · intro id m' a h; cases h
+  · intro id t h a ha
+    rw [hterm id t h] at ha
+    have : a ∈ [Atom.site, .ident xId, .text [70]] := by
+      simpa [brand, patAtoms, elemsAtoms, elemAtoms, exprAtoms, inlineAtoms, isolatable] using ha
+    simp only [List.mem_cons, List.not_mem_nil, or_false] at this
+    rcases this with rfl | rfl | rfl
+    · trivial
+    · exact mf _ (by decide)
+    · exact mf _ (by decide)
+  · intro id t at' h hat
+    rw [hterm id t h] at hat
+    simp [brand] at hat
+  · intro a h kv hkv
+    simp only [env] at h
+    cases h
+    simp only [List.mem_cons, List.not_mem_nil, or_false] at hkv
+    subst hkv
+    exact mf _ (by decide)
+  · intro id f ps ns h; cases h
+  · intro f v s h; cases h
+
+theorem noFlow : NoIsolatedValueFlow env hello := by
+  refine ⟨by decide +kernel, ?_, ?_, ?_, ?_⟩
+  · intro id m' q h; cases h
+  · intro id m' a h; cases h
+  · intro id t h
+    simp only [env] at h
+    split at h
+    · cases h; decide +kernel
+    · cases h
+  · intro id t at' h hat
+    simp only [env] at h
+    split at h
+    · cases h; simp [brand] at hat
+    · cases h
+
+/-- TEST: the additive theorem applied to this bundle -/
+example := isolation_additive_partial_format noFlow pieces 12
+
+/-- TEST: isolation on writes `Hi FSI Ann PDI ! FSI {$x} PDI F` (the term reference itself is not isolated, the
+placeable inside the two-element term value is, including its `{$x}` error fallback) -/
+example : outOf (formatPattern (withIso env true) 12 hello) =
+    some ([72, 105, 32] ++ fsi ++ [65, 110, 110] ++ pdi ++ [33, 32] ++ fsi ++ [123, 36, 120, 125] ++ pdi ++ [70], 0) := by
+  decide +kernel
+/-- TEST: isolation off -/
+example : outOf (formatPattern (withIso env false) 12 hello) =
+    some ([72, 105, 32, 65, 110, 110, 33, 32, 123, 36, 120, 125, 70], 0) := by decide +kernel
+/-- TEST: the hypothesis of the additive theorem holds here -/
+example : nfElems hello = true ∧ nfElems brand.value = true := by decide +kernel
+/-- TEST: the isolating output is balanced and strips to the plain output -/
+example : Balanced ([72, 105, 32] ++ fsi ++ [65, 110, 110] ++ pdi ++ [33, 32] ++ fsi ++ [123, 36, 120, 125] ++ pdi ++ [70]) ∧
+    strip ([72, 105, 32] ++ fsi ++ [65, 110, 110] ++ pdi ++ [33, 32] ++ fsi ++ [123, 36, 120, 125] ++ pdi ++ [70]) =
+      [72, 105, 32, 65, 110, 110, 33, 32, 123, 36, 120, 125, 70] := by decide +kernel
+/-- TEST: a single-element pattern `{ $name }` gets no marks although isolation is on -/
+example : outOf (formatPattern (withIso env true) 12 [.placeable (.inline (.var nameId))]) = some ([65, 110, 110], 0) := by
+  decide +kernel
+/-- TEST: the placeable-limit path stays balanced: 101 placeables `{ $name }` in one pattern; the 101st trips the
+limit *before* its FSI is written -/
+example : (match formatPattern (withIso env true) 300 (List.replicate 101 (.placeable (.inline (.var nameId)))) with
+    | .ok (w, e) => decide (Balanced w) && decide (strip w = (List.replicate 100 [65, 110, 110]).flatten) && e.length == 1
+    | _ => false) = true := by decide +kernel
+/-- TEST: why the piece hypothesis speaks about partial marks: two pieces without any mark whose junction is one -/
+example : strip [0x41, 0xE2, 0x81] = [0x41, 0xE2, 0x81] ∧ strip [0xA8, 0x42] = [0xA8, 0x42] ∧ strip ([0x41, 0xE2, 0x81] ++ [0xA8, 0x42]) = [0x41, 0x42] ∧
+    markFreeB [0x41, 0xE2, 0x81] = false := by decide +kernel
+
+end Demo
+
 end FluentProofs.C09
